@@ -27,6 +27,7 @@ def ob_connecting_result(report):
             p.events.append(Event('reply', 'oneshot::Sender::send', (call.args[0], call.args[1])))
             k(p, Sym(f'send_result{p.seq("sr")}', 'Result'))
         ex = e2.executor('anemo', CONNECTION_MODELS + [(r'ConnectionManager::add_peer$', m_add_peer), (r'oneshot::Sender::send$', m_send)], max_depth=2)
+        e2.require_methods(ex.prog, ('ConnectionManager', 'add_peer'))
         fn = find_method(ex.prog, 'ConnectionManager', 'handle_connecting_result')
         of = struct_fields('crates/anemo/src/network/connection_manager.rs', 'ConnectingOutput')
         out = struct_sym('out', 'ConnectingOutput', of, {'connecting_result': Sym('result', 'Result<Connection, anyhow::Error>'), 'maybe_oneshot': Sym('oneshot', 'Option<Sender>')})
